@@ -141,7 +141,7 @@ Call ==
                THEN [o EXCEPT !.sig = sig, !.site = site, !.msg = Ev.msg]
                ELSE IF m = "skip" /\ o.ended # "running" THEN [o EXCEPT !.ended = "skip"]   \* a skip raised from a cleanup
                ELSE o
-     IN SetObs(o2)
+     IN SetObs(IF sig # "none" THEN [o2 EXCEPT !.msgs = @ \cup {Ev.msg}] ELSE o2)
   /\ viol' = viol
   /\ UNCHANGED <<scen, ffBuf, topInv, runlog, prev, runinfo>>
 
@@ -150,8 +150,9 @@ Call ==
 ActionNone ==
   /\ Is("h.action.none") /\ Adv
   /\ SetObs(IF Stronger("fatal", cur.obs.sig)
-            THEN [cur.obs EXCEPT !.sig = "fatal", !.site = "no-valid-action", !.msg = "can't find a valid (non-skipped) action"]
-            ELSE cur.obs)
+            THEN [cur.obs EXCEPT !.sig = "fatal", !.site = "no-valid-action", !.msg = "can't find a valid (non-skipped) action",
+                                 !.msgs = @ \cup {"can't find a valid (non-skipped) action"}]
+            ELSE [cur.obs EXCEPT !.msgs = @ \cup {"can't find a valid (non-skipped) action"}])
   /\ viol' = viol
   /\ UNCHANGED <<scen, ffBuf, topInv, runlog, prev, runinfo>>
 
